@@ -51,3 +51,9 @@ def run(ctx):
     from ..engines import closure as GC
     GC.g9_ungroup_only_when_grouping(ctx)
     ctx.floor("G9", 1)
+    # rules shared after round 11: the clause is necessary for this property as well
+    from ..engines import varkind as V7E
+    V7E.v3_map_uses(ctx)
+    V7E.v10_param_map(ctx)
+    ctx.floor("V3", 9)
+    ctx.floor("V10", 3)
